@@ -211,6 +211,13 @@ func (p *Program) replayCandidateList(fr *FuncResult, cands []map[string]string,
 		var extras []string
 		for i, prm := range fn.Params {
 			pt, ok := prm.Type().Underlying().(*types.Pointer)
+			if ok && strings.HasPrefix(argExprs[i], "verifAddr(") {
+				// pointer to an integer/boolean variable: its final value is observed after the call
+				pre = append(pre, fmt.Sprintf("p%d := %s", i, argExprs[i]))
+				argExprs[i] = fmt.Sprintf("p%d", i)
+				extras = append(extras, fmt.Sprintf("*p%d", i))
+				continue
+			}
 			if !ok || !strings.HasPrefix(argExprs[i], "&") {
 				continue
 			}
